@@ -63,6 +63,7 @@ type Route struct {
 type FaultPlan struct {
 	MinLatency, MaxLatency time.Duration
 	Drop, Dup, Corrupt     uint64 // per mille
+	DupSameInstant         uint64 // per mille of the duplicates: delivered at the instant of the original
 	LongDelay              uint64 // per mille: latency drawn up to LongDelayMax instead
 	LongDelayMax           time.Duration
 	RxStampMissing         uint64 // per mille: no control message on receive
@@ -531,7 +532,8 @@ func (n *Net) routeDefault(d *Datagram, plan *FaultPlan) {
 		d.Payload[i] ^= 1 << bit
 		d.Note += fmt.Sprintf("corrupt@%d.%d ", i, bit)
 	}
-	n.Inject(d, n.latency(plan))
+	lat := n.latency(plan)
+	n.Inject(d, lat)
 	if plan.Dup > 0 && t.Bool(plan.Dup, 1000, "f.dup") {
 		n.R.Fault("duplicate")
 		n.mu.Lock()
@@ -542,7 +544,12 @@ func (n *Net) routeDefault(d *Datagram, plan *FaultPlan) {
 		dd.Note += "dup "
 		dd.Payload = append([]byte(nil), d.Payload...)
 		n.mu.Unlock()
-		n.Inject(&dd, n.latency(plan))
+		dlat := n.latency(plan)
+		if plan.DupSameInstant > 0 && t.Bool(plan.DupSameInstant, 1000, "f.dupsame") {
+			dlat = lat // both copies reach the receiver at the same instant (same receive timestamp)
+			n.R.Fault("duplicate-at-the-same-instant")
+		}
+		n.Inject(&dd, dlat)
 	}
 }
 
